@@ -323,7 +323,11 @@ def file_write_models(ctx, decide):
 
     def rename(it, args, callee):
         return ok(UNIT) if decide("rename") else err(Opaque("io::Error"))
-    m = {"OpenOptions::new": oo_new, "OpenOptions::open": oo_open, "File::create": file_create, "File::options": oo_new,
+
+    def remove_file(it, args, callee):
+        return ok(UNIT) if decide("remove_file") else err(Opaque("io::Error"))
+    m = {"fs::remove_file": remove_file, "fs::remove_dir": remove_file, "fs::create_dir_all": remove_file, "fs::create_dir": remove_file,
+         "OpenOptions::new": oo_new, "OpenOptions::open": oo_open, "File::create": file_create, "File::options": oo_new,
          "BufWriter::new": bufwriter, "BufWriter::with_capacity": lambda it, args, callee: args[1], "LineWriter::new": bufwriter,
          "serde_json::to_writer": to_writer, "serde_json::to_writer_pretty": to_writer, "to_writer": to_writer, "to_writer_pretty": to_writer, "Write::write_all": write_all, "Write::write": write_all,
          "Write::flush": flush, "File::sync_all": flush, "File::sync_data": flush, "fs::rename": rename, "File::set_len": flush,
@@ -537,6 +541,9 @@ def make_phonetic_event(shape):
             changed = c.get("writes", 0) > 0 or len(c["sel_map"].entries) > 0
             same = simp(bv(c["index"], 64) == bv(c["prev"], 64))
             clauses.append(("committing_the_preselected_candidate_changes_nothing", z3.Implies(same, z3.BoolVal(not changed))))
+            if not shape["sug"]:
+                # with the list switched off there is one candidate and nothing to learn: whatever the method still remembers of an earlier list
+                clauses.append(("commit_without_a_list_changes_nothing", not changed))
         return recs + eval_clauses(st, clauses, lambda cn, mm: dict(kind="violation", clause=cn, inputs=inputs(mm), predicted=pred(mm)))
     return build, on_path
 
@@ -735,6 +742,8 @@ def obl_phonetic_glue(check, max_n, budget_s=None):
             found = stale_preselection_search()
         elif vs[0]["clause"] == "shown_list_and_preselection_are_the_assemblys_answer":
             found = shown_answer_search()
+        elif vs[0]["clause"] == "commit_without_a_list_changes_nothing":
+            found = listless_commit_search()
         elif vs[0]["clause"] == "memo_entries_survive_the_event":
             found = memo_eviction_search()
         elif vs[0]["clause"] in ("flag_matches_state", "terminating_event_clears_composition", "idle_backspace_starts_nothing", "backspace_progress",
@@ -760,6 +769,46 @@ def obl_phonetic_glue(check, max_n, budget_s=None):
         if worst[st] > worst[status]:
             status = st
     check.obligation(name, "mirsym", status, detail + "; %d counterexample models" % len(vio))
+
+
+def listless_commit_search():
+    """Native: a choice is learned, the word typed again and the (now preselected) learned candidate committed; the list is switched off by
+    update_engine while idle; the word is typed and its single candidate committed: the store must not change, and with the list on again
+    the learned candidate is still preselected."""
+    import obl_assembly
+    keys = obl_assembly.char_keys()
+    store = "phonetic-candidate-selection.json"
+
+    def cfg(on):
+        return {"layout": "avro_phonetic", "database": REPO + "/data", "opts": {"phonetic_suggestion": on}}
+
+    def typ(t):
+        return [{"op": "key", "key": keys[ch], "sel": 0} for ch in t]
+    scs, meta = [], []
+    for w in ("sesh", "amar", "kotha"):
+        for learn in (1, 2):
+            steps = [{"op": "new", "config": cfg(True)}] + typ(w) + [{"op": "commit", "index": learn}] + typ(w) + [{"op": "commit", "index": learn}]
+            steps += [{"op": "read_user_file", "name": store}, {"op": "update", "config": cfg(False)}] + typ(w) + [{"op": "commit", "index": 0}]
+            steps += [{"op": "read_user_file", "name": store}, {"op": "update", "config": cfg(True)}] + typ(w) + [{"op": "get_state"}]
+            scs.append({"steps": steps})
+            meta.append((w, learn))
+    for (w, learn), sc, r in zip(meta, scs, run_replay_parallel(scs)):
+        rr = r["results"]
+        if any("panic" in x for x in rr):
+            continue
+        reads = [x for x in rr if x.get("op") == "read_user_file"]
+        shown = rr[len(w)].get("suggestion", {})
+        if learn >= len(shown.get("list", [])):
+            continue
+        before, after = reads[0].get("content"), reads[1].get("content")
+        last = rr[-2].get("suggestion", {})
+        sel = rr[-1].get("state", {}).get("prev_selection")
+        want = shown["list"][learn]
+        got = last.get("list", [None])[sel] if sel is not None and sel < len(last.get("list", [])) else None
+        if before != after or got != want:
+            return sc, rr[-2:], ("%r: candidate %d (%r) learned and committed again as the preselected one; list switched off by update_engine (idle), %r typed and its only "
+                                 "candidate committed: the store goes from %s to %s; with the list on again %r is preselected" % (w, learn, want, w, before, after, got))
+    return None
 
 
 def shown_answer_search():
@@ -1055,6 +1104,8 @@ def make_userfile(shape):
             clauses.append(("commit_ends_the_word", len(buf) == 0))
             # the store on disk may hold anything (a longer damaged document, an older longer store): a save that completes replaces it all
             clauses.append(("save_replaces_the_whole_file", all(sv["whole"] for sv in c.get("saves", []))))
+            # "leaks nothing": no value that owns heap memory is forgotten (its destructor skipped) on any path of the save
+            clauses.append(("nothing_owned_is_forgotten", len(it.env.get("forgotten", [])) == 0))
         return recs + eval_clauses(st, clauses, lambda cn, m: dict(kind="violation", clause=cn, inputs=inputs(m), predicted=pred(m)))
     return build, on_path
 
@@ -1141,6 +1192,24 @@ def constructor_options_native():
             if la.get("list") != lb.get("list") or sa != sb:
                 return name, sc, ("typing %r: it offers %s with candidate %s preselected; a context created with the final configuration offers %s with candidate %s preselected "
                                   "(user files: a learned choice for 'sesh', an auto-correct entry for 'xyz')" % (w, la.get("list", [])[:3], sa, lb.get("list", [])[:3], sb))
+    return None
+
+
+def save_leak_native():
+    """Native: life cycles through the C interface in which a candidate other than the preselected one is committed (so that the store is
+    saved), twice per cycle, under the allocation-counting allocator: nothing may stay allocated."""
+    import obl_assembly
+    keys = obl_assembly.char_keys()
+    cfg = {"layout": "avro_phonetic", "database": REPO + "/data", "opts": {"phonetic_suggestion": True}}
+    typ = [{"key": keys[ch], "sel": 0} for ch in "ami"]
+    ev = typ + [{"commit": 1}] + typ + [{"commit": 0}]
+    sc = {"steps": [{"op": "ffi_cycle", "config": cfg, "events": ev, "warmups": 3}]}
+    x = run_replay([sc])[0]["results"][0]
+    if x.get("panic") or x.get("error"):
+        return None
+    if x.get("net_blocks", 0) != 0 or x.get("net_bytes", 0) != 0:
+        return ("a learning commit leaves memory allocated", sc,
+                "life cycle through the C interface (type 'ami', commit candidate 1, type 'ami', commit candidate 0; every pointer freed): %d block(s) / %d byte(s) still allocated" % (x["net_blocks"], x["net_bytes"]))
     return None
 
 
@@ -1244,6 +1313,15 @@ def obl_userfiles(check, budget_s=None):
     for (ev, clause), vs in sorted(by_ev.items()):
         if clause == "constructor_consults_the_user_files_whatever_the_options":
             found = constructor_options_native()
+            if found:
+                fname, sc, obs = found
+                check.stats["traces_validated"] += 1
+                st = check.finding("user files: " + fname, "%s: %s" % (fname, obs), dict(scenario=sc, observed=obs, solver_counterexample=vs[0]["inputs"]))
+                if worst[st] > worst[status]:
+                    status = st
+                continue
+        if clause == "nothing_owned_is_forgotten":
+            found = save_leak_native()
             if found:
                 fname, sc, obs = found
                 check.stats["traces_validated"] += 1
